@@ -330,7 +330,7 @@ func shrink(srv *ogServer, eng *promql.Engine, dir string, ps *plannedSet, q *qu
 		return "(not reproducible on a fresh database with the whole set) " + relevantSamples(ps.set, q, 8)
 	}
 	// 1. drop whole series
-	for i := 0; i < len(cur.series) && attempt < 24; {
+	for i := 0; i < len(cur.series) && attempt < 12; {
 		cand := &sampleSet{allInt: cur.allInt}
 		cand.series = append(cand.series, cur.series[:i]...)
 		cand.series = append(cand.series, cur.series[i+1:]...)
@@ -341,7 +341,7 @@ func shrink(srv *ogServer, eng *promql.Engine, dir string, ps *plannedSet, q *qu
 		}
 	}
 	// 2. cut points: keep halves while it still fails
-	for round := 0; round < 6 && attempt < 40; round++ {
+	for round := 0; round < 6 && attempt < 20; round++ {
 		progress := false
 		for si := range cur.series {
 			pts := cur.series[si].points
@@ -357,7 +357,7 @@ func shrink(srv *ogServer, eng *promql.Engine, dir string, ps *plannedSet, q *qu
 						cand.series = append(cand.series, sr)
 					}
 				}
-				if attempt < 40 && fails(cand) {
+				if attempt < 20 && fails(cand) {
 					cur = cand
 					progress = true
 					break
